@@ -103,6 +103,7 @@ type World struct {
 	recv1Ctl  chan struct{}
 
 	curSnd     int  // sequence number of the last TunnelReq the client transmitted
+	offS, offR int  // sequence numbers already used up by a wrap prefix (sender / receiver direction): net addressing subtracts them
 	sndCtr     int  // the client's send counter as far as the driver can tell (in-flight number, +1 once acknowledged)
 	connecting bool // a ConnReq went out and no positive ConnRes has been taken in since
 	rcvExpect  int  // sequence number the client should expect next (by the rule)
@@ -323,8 +324,15 @@ func (w *World) Exec(st Step) {
 			k := 0
 			for j := 0; j < n; j++ {
 				if f, _ := w.Net.Peek(st.Dir, j); f.Svc == st.Svc {
-					if st.Q > 0 && st.Mod > 0 && f.Seq >= 0 && f.Seq%st.Mod != st.Q-1 {
-						continue
+					if st.Q > 0 && st.Mod > 0 && f.Seq >= 0 {
+						// the direction of the exchange decides which prefix offset applies
+						off := w.offS
+						if (st.Dir == "g2c") == (f.Svc == "TunnelReq") {
+							off = w.offR
+						}
+						if ((f.Seq-off)%256+256)%256%st.Mod != st.Q-1 {
+							continue
+						}
 					}
 					if st.Qst > 0 && f.St != st.Qst-1 {
 						continue
@@ -371,6 +379,70 @@ func (w *World) Exec(st Step) {
 				w.arrive(f)
 			}
 		}
+	case "prefix":
+		// N clean Send exchanges and I clean telegrams from the gateway, all at this instant: positions the real
+		// 8-bit counters just below their wrap before a behaviour generated with the model's small modulus goes on.
+		if w.tunnel() == nil || w.anyBusy() || !w.Gw.Connected || w.Gw.Pending {
+			// (e.g. the gateway already forwarded a telegram before the client took its ConnRes in): the
+			// behaviour simply goes on without a prefix
+			w.Rec.Simple("PrefixSkipped", -1, st.N, st.I, "")
+			return
+		}
+		w.Rec.Simple("PrefixBegin", -1, st.N, st.I, "")
+		takeExact := func(dir, svc string, seq int) (sim.Frame, bool) {
+			for j := w.Net.Len(dir) - 1; j >= 0; j-- {
+				if f, _ := w.Net.Peek(dir, j); f.Svc == svc && f.Seq == seq && f.Ch == w.chanNow {
+					return w.Net.Take(dir, j)
+				}
+			}
+			return sim.Frame{}, false
+		}
+		okAll := true
+		for k := 0; k < st.N && okAll; k++ {
+			w.mu.Lock()
+			seq := w.sndCtr
+			w.mu.Unlock()
+			w.Exec(Step{Op: "send", G: 1, P: 60000 + k})
+			w.Quiesce()
+			f, ok := takeExact("c2g", "TunnelReq", seq)
+			if !ok {
+				okAll = false
+				break
+			}
+			w.toG2C(w.Gw.Recv(f))
+			if a, ok := takeExact("g2c", "TunnelRes", seq); ok {
+				w.arrive(a)
+			} else {
+				okAll = false
+			}
+			w.Quiesce()
+		}
+		for k := 0; k < st.I && okAll; k++ {
+			out := w.Gw.Telegram(61000 + k)
+			if out == nil {
+				okAll = false
+				break
+			}
+			seq := out[0].Seq
+			w.arrive(out[0])
+			w.Quiesce()
+			w.Exec(Step{Op: "recv"})
+			if a, ok := takeExact("c2g", "TunnelRes", seq); ok {
+				w.toG2C(w.Gw.Recv(a))
+			} else {
+				okAll = false
+			}
+			w.Quiesce()
+		}
+		if !okAll {
+			skip("prefix-failed")
+		}
+		w.mu.Lock()
+		w.offS += st.N
+		w.offR += st.I
+		a, b := w.offS, w.offR
+		w.mu.Unlock()
+		w.Rec.Simple("PrefixEnd", -1, a, b, "")
 	case "gwtele":
 		out := w.Gw.Telegram(st.P)
 		if out == nil {
